@@ -394,6 +394,10 @@ example : ∃ tree, dispatch info (some (true, true)) .floordiv (.var 2) (.var 3
   obtain ⟨tree, h1, h2⟩ := arith_matches true .floordiv (by simp [intOps]) 2 3 (by simp [ints]) (by simp [ints]) 3
     (by decide +kernel) (by decide +kernel) (-7) 2 (by decide +kernel) (by decide +kernel) (fun _ => ⟨by decide, by decide⟩)
   exact ⟨tree, h1, by rw [h2]; decide +kernel⟩
+-- (x0 + x1) // x2 with x0 : int8 = -7, x1 : int32 = 2, x2 : int64 = 2:  numpy int64 -3, and so does the emitted graph
+example : npExpr (fun i => [(0, -7), (2, 2), (3, 2)].getD i (0, 0)) (.bin .floordiv (.bin .add (.var 0) (.var 1)) (.var 2)) = some (3, -3) ∧
+    spoxExpr true (fun i => [(0, -7), (2, 2), (3, 2)].getD i (0, 0)) (.bin .floordiv (.bin .add (.var 0) (.var 1)) (.var 2)) = some (3, -3) := by
+  decide +kernel
 example : resultDtype (dispatch info (some (true, true)) .truediv (.var 2) (.var 2)) = some f64 := by decide +kernel
 example : resultDtype (dispatch info (some (true, true)) .add (.var 7) (.var 3)) = some f64 := by decide +kernel
 example : isErr (dispatch info (some (false, true)) .add (.var 2) .pyFloat) .typeError = true := by decide +kernel
